@@ -45,15 +45,13 @@ func TestMain(m *testing.M) {
 	os.Exit(core.ExitCode())
 }
 
-var forceable = []string{"errors", "unicode/utf8", "sort", "os"}
-
 func gen(rt *rapid.T) any {
 	r := &Record{}
 	r.Prog = gencommon.Program(rt, gencommon.ProgramSpec{CorpusShare: 2, Lib: 4, MaxXGo: 3, Budget: 60, MaxDepth: 4, MaxDecls: 8}, env.Paths)
-	if r.Prog.Corpus == "" && rapid.IntRange(0, 3).Draw(rt, "force") == 0 {
-		r.Prog.ForceImports = []string{rapid.SampledFrom(forceable).Draw(rt, "force_path")}
+	if r.Prog.Corpus == "" {
+		r.Prog.ForceImports = gencommon.ForceImports(rt)
 	}
-	r.Front = gencommon.Front(rt, gencommon.FrontSpec{Faults: []string{"discard_ref", "discard_reset", "abort_stmt", "inline_closure"}, MaxFaults: 4, FileAssign: true})
+	r.Front = gencommon.Front(rt, gencommon.FrontSpec{Faults: []string{"discard_ref", "discard_reset", "abort_stmt", "inline_closure", "bigint_op"}, MaxFaults: 4, FileAssign: true})
 	r.MapDflt = rapid.IntRange(0, 23).Draw(rt, "mapdflt")
 	n := rapid.IntRange(0, 6).Draw(rt, "nmo")
 	for i := 0; i < n; i++ {
